@@ -1,5 +1,8 @@
+import atexit
 import re
+import subprocess
 
+import vlib
 from vlib import Prop
 from props.c16 import hx
 from props.c02 import varint
@@ -8,6 +11,42 @@ CONNECT = "01200000cfd750831af1ff518263cf2f00b95d8749c87a3f89f058d360ea4567b13f"
 GET = "010d0000d1d750831af1ff518263cf"
 PEER_SETTINGS = "00040e0801ab603742013301ab60374301"   # ec=1, wt=1, datagram=1, max sessions=1
 U = 2**64 - 1    # `cw<sid>:U` = unlimited write credit
+
+
+class Judge:
+    """One long-lived `h3drv` for single lines (`project`, used by C18 and by the shrinker); whole
+    runs go through `project_all` in batches."""
+
+    def __init__(self):
+        self.p = None
+
+    def ask(self, line):
+        for attempt in (0, 1):
+            if self.p is None or self.p.poll() is not None:
+                self.p = subprocess.Popen([vlib.DRV], stdin=subprocess.PIPE, stdout=subprocess.PIPE, text=True)
+            try:
+                self.p.stdin.write(line + "\n")
+                self.p.stdin.flush()
+                r = self.p.stdout.readline()
+                if r:
+                    return r.rstrip("\n")
+            except (BrokenPipeError, OSError):
+                pass
+            self.p = None
+        return "judge-failed"
+
+    def close(self):
+        if self.p is not None and self.p.poll() is None:
+            try:
+                self.p.stdin.close()
+                self.p.wait(timeout=5)
+            except Exception:
+                self.p.kill()
+        self.p = None
+
+
+JUDGE = Judge()
+atexit.register(JUDGE.close)
 
 
 class C19(Prop):
@@ -27,7 +66,11 @@ class C19(Prop):
                   "over the BufList::take_chunk(limit) model); for every session id, acceptance pattern of the transport and sequence "
                   "of write calls (poll_send, futures/tokio poll_write, send_data+poll_ready, poll_finish/close/shutdown, reset) the "
                   "wire of an opened uni/bidi stream is header(sid) ++ the bytes handed over, in order (a prefix while a call waits), "
-                  "it decodes to that sid with exactly those bytes behind it, and read back by the peer model it yields them again")
+                  "it decodes to that sid with exactly those bytes behind it, and read back by the peer model it yields them again; "
+                  "for ANY interleaving of arriving uni streams (any stream ids, session ids, payloads, cuttings) and accept_uni calls "
+                  "the entries surfaced plus those still buffered in wt_uni_streams are a PERMUTATION of the arrived (stream, session "
+                  "id in its header, its payload) triples - none twice, none lost, none with another stream's id or bytes - and "
+                  "accept_uni waits only when nothing is buffered (model: pending_recv_streams pass + Vec push/pop)")
     level_note = ("trusted: Lean kernel + 3 axioms; models tied by real h3-webtransport WebTransportSession over SimQuic "
                   "(accept, session_id, open_bi/open_uni, accept_bi/accept_uni, BidiStream::split, stream reads through poll_data and "
                   "through both AsyncRead impls with caller-chosen buffer sizes, writes through poll_send, both AsyncWrite impls and "
@@ -41,15 +84,64 @@ class C19(Prop):
             "… larger than any chunk (cycling lists), data/FIN/RESET arriving before the accept, before the read or while it waits; "
             "writes on opened and accepted streams: slices and DATA frames of 0…70 bytes, credit unlimited / 0,1,2,5 then grants of "
             "1…50 bytes, left short, or STOP_SENDING while waiting; the stream header itself under initial credit 0…5; datagrams "
-            "for the session, for other ids, truncated / too large quarter ids; non-trivial = a session was accepted")
+            "for the session, for other ids, truncated / too large quarter ids; 2-4 uni streams (and 0-2 bidi streams) "
+            "outstanding together before the first accept (distinct marked payloads, own / foreign session ids in every varint "
+            "form, headers complete or not at the accept, FIN / RESET / left open, some opened before the session exists, "
+            "accepts and reads interleaved with late data, one accept too few / too many); a stream abandoned inside its header "
+            "at every offset (0 = nothing at all) x uni/bidi x FIN/RESET x before the accept / while it waits, followed by a "
+            "complete stream and further accepts of both kinds; non-trivial = a session was accepted")
     trusted = []
-    assumptions = ["one WebTransport uni stream pending at a time (accept_uni pops the most recent)",
+    assumptions = ["the ORDER in which buffered uni streams are surfaced is the implementation's choice (the code pops the one pushed "
+                   "last; the model does the same, the specification accepts any order): the judge (engine wtj) lets each accept_uni "
+                   "surface the stream the implementation names if that is a buffered WebTransport stream with a complete header, "
+                   "not surfaced before, and demands ITS session id and, in the reads, ITS payload",
+                   "bidirectional streams are handed to accept_bi by the transport in the order opened (SimQuic; h3 does not buffer them)",
+                   "a stream that ends inside its WebTransport header: uni = never surfaced; bidi = accept_bi answers an error or None, "
+                   "never a stream; after an accept answered a connection error every later accept answers an error; whether and with "
+                   "which code the connection is then closed is C04's / C06's subject (the closed=[..] token may be absent)",
+                   "requests and non-WebTransport frames that come in through accept_bi are C03's subject (not generated here)",
                    "transport chunks are non-empty and FIN / RESET are sticky (SimQuic; R-T)",
                    "a datagram error surfaces as a connection close at the next accept_bi / accept_uni of the session"]
 
+    # The specification is a predicate over the observed answers (the property has no opinion on the ORDER in which
+    # buffered streams are surfaced): the observables are sent through the Lean judge (engine `wtj`), its verdict is
+    # prefixed; the driver prints `<verdict on the model's answers> <model tokens> ## ok **`.
+    def judge_line(self, line, obs):
+        return "wtj " + line.split(" ", 1)[1] + " @@ " + obs
+
     def project(self, line, impl):
-        if " | " not in impl:
+        if " | " not in impl or not line.startswith("wt "):
             return impl
+        obs = self.observables(line, impl)
+        return (JUDGE.ask(self.judge_line(line, obs)) + " " + obs).strip()
+
+    def project_all(self, lines, impls):
+        obs = [self.observables(l, o) if (" | " in o and l.startswith("wt ")) else None for l, o in zip(lines, impls)]
+        idx = [i for i, o in enumerate(obs) if o is not None]
+        ask = [self.judge_line(lines[i], obs[i]) for i in idx]
+        verdicts = []
+        if ask:
+            w = vlib.workers_for(self)
+            if w <= 1 or len(ask) < 4000:
+                verdicts = self._judge_batch(ask)
+            else:
+                from concurrent.futures import ThreadPoolExecutor
+                n = (len(ask) + w - 1) // w
+                with ThreadPoolExecutor(max_workers=w) as ex:
+                    for part in ex.map(self._judge_batch, [ask[k:k + n] for k in range(0, len(ask), n)]):
+                        verdicts += part
+        res = list(impls)
+        for k, i in enumerate(idx):
+            res[i] = (verdicts[k] + " " + obs[i]).strip()
+        return res
+
+    def _judge_batch(self, ask):
+        rc, out, err = vlib.run_lines(vlib.DRV, ask)
+        if rc != 0 or len(out) != len(ask):
+            raise RuntimeError("h3drv (judge) failed rc=%s out=%d/%d %s" % (rc, len(out), len(ask), err[-400:]))
+        return [o.strip() for o in out]
+
+    def observables(self, line, impl):
         trace, summ = impl.split(" | ", 1)
         out = []
         shown = set()
@@ -64,7 +156,7 @@ class C19(Prop):
         m = re.search(r"pending=\[([^\]]*)\]", summ)
         if m:
             for e in m.group(1).split(","):
-                if re.match(r"^(conn\.(au|ob|ou|dgr)|w\d+s?\.\w+)$", e):
+                if re.match(r"^(conn\.(WT|au|ab|ob|ou|dgr)|w\d+s?\.\w+)$", e):
                     out.append(e + "=pending")
         # streams the server opened (ids ≡ 1 mod 4 bidi, ≡ 3 mod 4 uni beyond the three setup streams) and
         # streams accepted for the session: bytes written, FIN / RESET / STOP_SENDING issued by h3
@@ -86,12 +178,22 @@ class C19(Prop):
         api = [o.split(".", 1)[1].split(":")[0] for o in ops if re.match(r"^w\d+s?\.", o)]
         io = [k for k in api if k not in ("wr", "ra")]
         dg = "conn.dgs" in line or "conn.dgr" in line
+        trace0 = raw.split(" | ")[0]
+        surfaced = [int(x) for x in re.findall(r"conn\.au=uni:session=\d+:stream=(\d+)", trace0)]
+        buf = ""
+        if len(surfaced) >= 2:
+            buf = " uni-surfaced=%d order=%s" % (min(len(surfaced), 4), "opening" if surfaced == sorted(surfaced) else
+                                                  "reverse" if surfaced == sorted(surfaced, reverse=True) else "mixed")
+        if "H3_FRAME_ERROR" in trace0:
+            buf += " header-truncated"
+        elif re.search(r"conn\.ab=(none|err:rterm)", trace0):
+            buf += " header-abandoned"
         if not io and not dg and ",wc=" not in line.split()[2]:
             # the cases about ids, headers and cuts (reads through poll_data, writes through poll_send)
-            return "connect=%s wt=%s %s%s%s%s" % (
+            return "connect=%s wt=%s %s%s%s%s%s" % (
                 "multi" if c and c[0] >= 64 else "small", "1" if "wt=1" in line.split()[2] else "0",
                 "ab " if "conn.ab" in line else "", "au " if "conn.au" in line else "",
-                "ob " if "conn.ob" in line else "", "ou" if "conn.ou" in line else "")
+                "ob " if "conn.ob" in line else "", "ou" if "conn.ou" in line else "", buf)
         # the cases about the I/O faces: which read face(s), which write face(s), and the most telling thing that happened
         names = {"ra": "poll_data", "rf": "futures", "rt": "tokio", "wr": "poll_send", "wf": "futures", "wt": "tokio", "sd": "send_data"}
         rd = sorted({names[k] for k in api if k in ("ra", "rf", "rt")})
@@ -115,8 +217,8 @@ class C19(Prop):
             what = "datagram"
         else:
             what = "plain"
-        return "io rd=%s wr=%s %s" % ("mixed" if len(rd) > 1 else rd[0] if rd else "-",
-                                      "mixed" if len(wr) > 1 else wr[0] if wr else "-", what)
+        return "io rd=%s wr=%s %s%s" % ("mixed" if len(rd) > 1 else rd[0] if rd else "-",
+                                        "mixed" if len(wr) > 1 else wr[0] if wr else "-", what, buf)
 
     def trivial_raw(self, line, raw):
         return "conn.WT=ok" not in raw
@@ -151,6 +253,12 @@ class C19(Prop):
         ops += ["o%d" % connect, "s%d:%s" % (connect, CONNECT), "conn.WT", "conn.sid"]
         used_b = connect + 4
         used_u = 6
+        if wt and rng.random() < 0.3:
+            # several incoming streams outstanding before the first accept
+            pre, accepts, late, reads, used_u, used_b = self.burst(rng, connect, used_u, used_b, wt, allow_trunc=False)
+            ops += pre + accepts + late
+            for r in reads:
+                ops += r
         for _ in range(rng.randrange(1, 5)):
             k = rng.random()
             if k < 0.25:
@@ -201,6 +309,185 @@ class C19(Prop):
         if wt or "conn.au" not in ops:
             ops += final
         return "wt server %s %s" % (cfg, " ".join(ops))
+
+
+    # ------------------------------------------------------------------ several streams outstanding before an accept
+
+    def wt_header(self, rng, bidi, sess):
+        need = 0 if sess < 64 else 1 if sess < 2**14 else 2 if sess < 2**30 else 3
+        if bidi:
+            return varint(0x41, rng.choice([1, 1, 2])) + varint(sess, max(rng.choice([0, 0, 1, 2, 3]), need))
+        return varint(0x54, rng.choice([1, 1, 2, 3])) + varint(sess, max(rng.choice([0, 0, 1, 2, 3]), need))
+
+    def burst(self, rng, connect, used_u, used_b, wt, allow_trunc=True):
+        """2-4 WebTransport uni streams (and 0-2 bidi streams) opened by the peer and outstanding at the same time:
+        different payloads, session ids that are / are not the session's, different chunkings, headers complete or
+        not when the first accept runs, some finished, some reset, some left open, one now and then abandoned inside
+        its header.  Returns (events up to the accepts, accept calls, reads / late events, used_u, used_b)."""
+        streams = []     # (sid, bidi, events before, events later)
+        nuni = rng.choice([2, 2, 3, 3, 4])
+        nbidi = rng.choice([0, 0, 1, 1, 2])
+        kinds = [False] * nuni + [True] * nbidi
+        rng.shuffle(kinds)
+        sessions = [connect, connect, 0, 4, 8, 100, 2**14, 2**20, 2**30 + 4, 2**40]
+        marks = list(range(0xa0, 0xb0))
+        rng.shuffle(marks)
+        for n, bidi in enumerate(kinds):
+            if bidi:
+                sid = used_b
+                used_b += 4
+            else:
+                sid = used_u
+                used_u += 4
+            sess = rng.choice(sessions)
+            hdr = self.wt_header(rng, bidi, sess)
+            plen = rng.choice([0, 1, 1, 2, 5, 9, 30])
+            # payloads that tell the streams apart: the first byte is a mark of the stream
+            payload = ([marks[n]] + [rng.getrandbits(8) for _ in range(plen - 1)]) if plen else []
+            if allow_trunc and rng.random() < 0.12:
+                # abandoned inside the header
+                k = rng.randrange(0, len(hdr))
+                data = hdr[:k]
+                chunks = self.cuts(sid, data, max(1, k), rng) if data else []
+                ev = ["o%d" % sid] + chunks + [rng.choice(["f%d" % sid, "f%d" % sid, "r%d:%d" % (sid, rng.choice([0, 3, 2**20]))])]
+                cut = len(ev) if rng.random() < 0.7 else rng.randrange(1, len(ev) + 1)
+                streams.append((sid, bidi, ev[:cut], ev[cut:], False))
+                continue
+            chunks = self.cuts(sid, hdr + payload, len(hdr), rng)
+            end = rng.random()
+            endop = ["f%d" % sid] if end < 0.5 else ["r%d:%d" % (sid, rng.choice([0, 9, 2**20]))] if end < 0.62 else []
+            ev = ["o%d" % sid] + chunks + endop
+            r = rng.random()
+            if r < 0.45:
+                cut = len(ev)                                   # everything is there before the first accept
+            elif r < 0.8:
+                # the header is complete, the rest comes later
+                covered, j = 0, 0
+                while covered < len(hdr):
+                    covered += (len(chunks[j]) - len("s%d:" % sid)) // 2
+                    j += 1
+                cut = 1 + rng.randrange(j, len(chunks) + 1)
+            else:
+                cut = rng.randrange(1, len(ev) + 1)             # possibly not even the header
+            streams.append((sid, bidi, ev[:cut], ev[cut:], True))
+        pre = []
+        for st in streams:
+            pre = self.merge(rng, pre, st[2])
+        unis = [st for st in streams if not st[1]]
+        bidis = [st for st in streams if st[1]]
+        accepts = []
+        if wt:
+            n_au = len([u for u in unis if u[4]]) + rng.choice([-1, 0, 0, 0])
+            accepts += ["conn.au"] * max(1, n_au)
+        accepts_b = ["conn.ab"] * len(bidis)
+        accepts = self.merge(rng, accepts, accepts_b)
+        late = []
+        for st in streams:
+            late = self.merge(rng, late, st[3])
+        reads = []
+        for st in streams:
+            task = "w%d" % st[0]
+            k = rng.random()
+            if k < 0.5:
+                reads.append([task + ".ra"])
+            elif k < 0.85:
+                reads.append([task + "." + self.read_op(rng, 8)])
+            else:
+                reads.append([task + "." + self.read_op(rng, 8, rng.randrange(1, 4)), task + ".ra"])
+        return pre, accepts, late, reads, used_u, used_b
+
+    def one_case_buffered(self, rng):
+        """the session, then a burst of incoming streams that are outstanding together; the accepts; the reads"""
+        wt = rng.random() < 0.93
+        cfg = "g0,wt=%d,ec=1,dg=1,seed=%d" % (1 if wt else 0, rng.randrange(0, 1000))
+        connect = rng.choice([0, 4, 8, 12, 60, 64, 256, 16384, 2**30])
+        ops = ["o2", "s2:" + PEER_SETTINGS]
+        if rng.random() < 0.25 and connect >= 8:
+            ops += ["o0", "s0:" + GET, "f0", "conn.A", "q0.res", "q0.sr:200", "q0.fi"]
+        pre, accepts, late, reads, used_u, used_b = self.burst(rng, connect, 6, connect + 4, wt)
+        head = ["o%d" % connect, "s%d:%s" % (connect, CONNECT), "conn.WT", "conn.sid"]
+        early = rng.random() < 0.2
+        if early:
+            # uni streams that arrive before the session exists wait in `wt_uni_streams` too
+            uni_pre = [o for o in pre if int(re.match(r"^[osfr](\d+)", o).group(1)) % 4 == 2]
+            rest = [o for o in pre if o not in uni_pre]
+            k = rng.randrange(1, len(uni_pre) + 1)
+            ops += uni_pre[:k] + head + self.merge(rng, uni_pre[k:], rest)
+        else:
+            ops += head + pre
+        if not wt:
+            # accept_uni never answers: only the bidi side and then one accept_uni
+            ops += [a for a in accepts if a == "conn.ab"] + late + ["conn.au"]
+            return "wt server %s %s" % (cfg, " ".join(ops))
+        style = rng.random()
+        flat_reads = []
+        for r in reads:
+            flat_reads = self.merge(rng, flat_reads, r)
+        if style < 0.4:
+            # all accepts, then the rest of the data, then the reads
+            ops += accepts + late + flat_reads
+        elif style < 0.7:
+            # data keeps arriving between the accepts; reads at the end
+            ops += self.merge(rng, accepts, late) + flat_reads
+        else:
+            # everything interleaved: a read of a stream not surfaced yet answers `no-task`
+            ops += self.merge(rng, self.merge(rng, accepts, late), flat_reads)
+        if rng.random() < 0.2:
+            ops.append(rng.choice(["conn.au", "conn.ab"]))     # one accept too many: it waits
+        return "wt server %s %s" % (cfg, " ".join(ops))
+
+    def trunc_cases(self, rng, reps):
+        """a WebTransport stream abandoned inside its header: every header offset (0 = nothing at all), uni and bidi,
+        one- to eight-byte session ids, FIN or RESET, before the accept or while it waits; then a complete stream and
+        further accepts (after a truncated bidi header every accept answers the connection error)"""
+        L = []
+        for _ in range(reps):
+            for bidi in (False, True):
+                for sess in (4, 0, 63, 64, 16383, 16384, 2**30 - 1, 2**30, 2**62 - 4):
+                    hdr = self.wt_header(rng, bidi, sess)
+                    for k in range(0, len(hdr)):
+                        for endk in ("f", "r"):
+                            cfg = "g0,wt=1,ec=1,dg=1,seed=%d" % rng.randrange(0, 1000)
+                            connect = rng.choice([0, 4, 64, 16384])
+                            sid = connect + 4 if bidi else 6
+                            ops = ["o2", "s2:" + PEER_SETTINGS, "o%d" % connect, "s%d:%s" % (connect, CONNECT), "conn.WT", "conn.sid"]
+                            # a stream accepted before, still readable afterwards
+                            if rng.random() < 0.5:
+                                first_bidi = rng.random() < 0.5
+                                fsid = (sid + 4 if bidi else connect + 4) if first_bidi else (10 if not bidi else 6)
+                                fh = self.wt_header(rng, first_bidi, connect)
+                                ops += ["o%d" % fsid, "s%d:%s" % (fsid, hx(fh + [0xee])), "conn.ab" if first_bidi else "conn.au"]
+                                tail = ["s%d:ef" % fsid, "f%d" % fsid, "w%d.ra" % fsid]
+                            else:
+                                fsid, tail = None, []
+                            acc = "conn.ab" if bidi else "conn.au"
+                            endop = "f%d" % sid if endk == "f" else "r%d:%d" % (sid, rng.choice([0, 5, 2**20]))
+                            part = ["o%d" % sid] + (self.cuts(sid, hdr[:k], max(1, k), rng) if k else [])
+                            order = rng.random()
+                            if order < 0.4:
+                                ops += part + [endop, acc]
+                            elif order < 0.8:
+                                ops += part + [acc, endop]
+                            else:
+                                ops += [part[0], acc] + part[1:] + [endop]
+                            # what comes next: a complete stream of the same kind and accepts of both kinds
+                            nsid = max(sid, fsid or 0) + (4 if (max(sid, fsid or 0) % 4 == (0 if bidi else 2)) else 0)
+                            while nsid % 4 != (0 if bidi else 2) or nsid in (sid, fsid):
+                                nsid += 2 if nsid % 2 == 0 else 1
+                            nh = self.wt_header(rng, bidi, rng.choice([connect, 8, 2**20]))
+                            nxt = ["o%d" % nsid, "s%d:%s" % (nsid, hx(nh + [0xcc, 0xdd])), "f%d" % nsid]
+                            if not bidi and order >= 0.4 and rng.random() < 0.5:
+                                # the accept_uni that was waiting takes this stream
+                                ops += nxt + ["w%d.ra" % nsid]
+                            else:
+                                ops += nxt + [acc, "w%d.ra" % nsid]
+                            for _ in range(rng.randrange(0, 3)):
+                                ops.append(rng.choice(["conn.ab", "conn.au", "conn.dgs:0a", "conn.ob", "conn.ou"]))
+                                if ops[-1] in ("conn.ab", "conn.au") and not (bidi and endk == "f" and k > 0):
+                                    break    # without a connection error this accept waits for ever
+                            ops += tail
+                            L.append("wt server %s %s" % (cfg, " ".join(ops)))
+        return L
 
     # ------------------------------------------------------------------ I/O faces of the streams
 
@@ -431,6 +718,14 @@ class C19(Prop):
                     ops.append(t.pop(0))
 
         stop = False
+        if wt and not dg_focus and rng.random() < 0.2:
+            # several incoming streams outstanding before the first accept; their data and the reads run alongside the rest
+            pre, accepts, late, reads, used_u, used_b = self.burst(rng, connect, used_u, used_b, wt, allow_trunc=False)
+            ops += pre + accepts
+            t = late
+            for r in reads:
+                t = self.merge(rng, t, r) if rng.random() < 0.5 else t + r
+            threads.append(t)
         for _ in range(rng.randrange(1, 6)):
             k = rng.random()
             if dg_focus and k < 0.6:
@@ -504,6 +799,8 @@ class C19(Prop):
     def cases(self, tier, rng):
         big = tier == "thorough"
         L = [self.one_case_basic(rng) for _ in range(6000 if big else 1200)]
+        L += [self.one_case_buffered(rng) for _ in range(40000 if big else 8000)]
+        L += self.trunc_cases(rng, 3 if big else 1)
         L += [self.one_case_io(rng) for _ in range(200000 if big else 30000)]
         L += [self.one_case_io(rng, dg_focus=True) for _ in range(20000 if big else 4000)]
         L += [self.one_case_dg(rng) for _ in range(10000 if big else 2000)]
@@ -513,8 +810,14 @@ class C19(Prop):
         w = line.split()
         ops = w[3:]
         out = []
+        # the session itself stays: the peer's SETTINGS, the CONNECT request and its stream, conn.WT
+        keep = {"o2", "conn.WT"}
+        for o in ops:
+            m = re.match(r"^s(\d+):" + CONNECT + "$", o)
+            if m:
+                keep |= {o, "o" + m.group(1)}
         for i in range(len(ops)):
-            if ops[i] in ("o2", "conn.WT") or ops[i].startswith("s2:"):
+            if ops[i] in keep or ops[i].startswith("s2:"):
                 continue
             out.append(" ".join(w[:3] + ops[:i] + ops[i + 1:]))
         return out
